@@ -208,7 +208,7 @@ def run_kani_units(units, cfgs, repo, tier, work, prop=None):
                         else:
                             o["status"], o["detail"] = "undecided", "vacuity guard: a deliberately false harness verified"
                     elif r["status"] == "SUCCESSFUL":
-                        if r["covers_total"] and r["covers_sat"] != r["covers_total"]:
+                        if r["covers_total"] and r["covers_sat"] < hc.get("min_covers", r["covers_total"]):
                             o["status"], o["detail"] = "undecided", "vacuity guard: %d of %d cover properties unsatisfied" % (
                                 r["covers_total"] - r["covers_sat"], r["covers_total"])
                         else:
@@ -217,7 +217,7 @@ def run_kani_units(units, cfgs, repo, tier, work, prop=None):
                     elif r["status"] == "FAILED":
                         real_fail = [f for f in r["failed"] if "unwinding assertion" not in f]
                         if not real_fail:
-                            o["status"], o["detail"] = "undecided", "unwinding bound too small for the current code (tool bound, not a violation)"
+                            o["status"], o["detail"] = "undecided", "no failed check reported: unwinding bound too small for the current code, or CBMC stopped by the memory guard (tool bound, not a violation)"
                         else:
                             o["status"] = "failed"
                             o["failed_kinds"] = sorted(set(real_fail))
